@@ -14,16 +14,24 @@
     - the front end of ParseTLFile never panics; a tokenizer error carries positions inside the text
       for which ParseError.consolePrint slices nothing out of range (anyCorrupted stays false).
 
-    Parser proper (tlparser_code.go, tlparser_typeref.go): NOT transcribed.  The parser is modelled abstractly: every error it
-    builds is parseErrToken(msg, tok, outer) with [tok] an element of the token slice and [outer] the
-    position of an earlier-or-equal element ([admissibleErr]); for every such error the same in-range
-    facts are proved ([..._partial]).  Full statement that is missing:
-      forall s e, parse (tokens of s) = Err e -> admissibleErr (tokens of s) e   and   parse never panics,
-    for a Gallina transcription [parse] of the recursive-descent parser.  That part is covered on the
-    implementation side only (oracle of lib/lex_lib.py on the real ParseTLFile: recover(), error begin/end
-    offsets, token-boundary check, ConsolePrint/Error() do not panic and do not report a corrupted context). *)
+    Parser proper (tlparser_code.go, tlparser_typeref.go): transcribed function by function, reduced to its
+    control flow, in Lex/LexParse1Model.v ([parseTLFile] = tokenizer + [parseTokens]); the model is compared with
+    the real ParseTLFile on every run (corr:C19:lex, field P1: ok / error class, outer, begin and end position).
+    Proved for ALL inputs and every fuel ([C19_parser_safe_partial]): the parser model never reaches one of the
+    panic sites of the Go code (tokenIterator.front/popFront out of range -- eof is never popped --, the
+    log.Panicf calls of skipWS / expectOrPanic / splitIdenNSFromToken, val[1:] on an empty value, the nil
+    dereference in parseArithmetic, the "unexpected token in whitespace" panic and the fileContent[a:b] slices of
+    parseCommentBefore / parseCommentRight / ParseTLFile), and every error it returns is located at a token of
+    the input with the first token of the combinator as outer context, hence lies inside the text and is
+    printed by consolePrint without any out-of-range slice.
+    Why "_partial": the model uses structural fuel (10 * (tokens + 2)); that this budget is never exhausted
+    ([PR_nofuel]) is not proved, only checked on every input of the correspondence run.  Not modelled:
+    Combinator.crc32() (runs on the finished AST) and the AST construction itself; for those the
+    implementation-side oracle applies (recover(), error offsets, ConsolePrint/Error() do not panic).
+    [C19_parser_error_in_range_partial] is the same in-range statement for the abstract error model
+    [admissibleErr] (kept because C20 uses it for the TL2 parser). *)
 From Coq Require Import List NArith ZArith.
-From TLV Require Import Lex.LexModel Lex.LexProofs.
+From TLV Require Import Lex.LexModel Lex.LexProofs Lex.LexParse1Model Lex.LexParse1Proofs.
 Import ListNotations.
 Open Scope N_scope.
 
@@ -97,6 +105,30 @@ Theorem C19_parser_error_in_range_partial : forall builtin dirty s toks e,
 Proof. exact (fun b d => parser_error_in_range (opt b d)). Qed.
 Print Assumptions C19_parser_error_in_range_partial.
 
+(** tokenizer + transcribed parser: no panic site reachable, every error in range (see header for "_partial") *)
+Theorem C19_parser_safe_partial : forall builtin dirty s,
+  match parseTLFile (opt builtin dirty) s with
+  | PR_ok => True
+  | PR_err _ e =>
+      errCorrupted (lenN s) e = false /\
+      p_off (e_begin e) <= p_off (e_end e) <= lenN s /\
+      p_off (e_outer e) <= p_off (e_begin e) /\
+      (exists pre, e_begin e = pos_spec pre /\ exists post, s = pre ++ t_val (e_tok e) ++ post) /\
+      (exists pre, e_outer e = pos_spec pre /\ exists post, s = pre ++ post)
+  | PR_panic => False
+  | PR_nofuel => True
+  end.
+Proof. exact (fun b d => parseTLFile_safe (opt b d)). Qed.
+Print Assumptions C19_parser_safe_partial.
+
+(** the fuel of the tokenizer is always sufficient; only the parser budget is unproved *)
+Theorem C19_nofuel_only_parser : forall builtin dirty s,
+  parseTLFile (opt builtin dirty) s = PR_nofuel ->
+  exists toks, parseFront (opt builtin dirty) s = Ok (F_tokens toks) /\
+               parseTokens (lenN s) builtin toks = P_nofuel.
+Proof. exact (fun b d => parseTLFile_nofuel_only_parser (opt b d)). Qed.
+Print Assumptions C19_nofuel_only_parser.
+
 (** Non-vacuity: the model really tokenizes, reports errors, and the hypotheses are satisfiable. *)
 (* "a#1a2b3c4d x:int = A;\n" *)
 Definition sample : list N :=
@@ -145,3 +177,19 @@ Example ex_corrupted_detects :
   errCorrupted 5 (mkErr E_undefined (mkTok 59%Z [59] (mkPos 1 6 0 5)) (mkPos 1 1 0 0)) = true.
 Proof. vm_compute. reflexivity. Qed.
 
+
+(* the sample parses; a truncated one fails at the eof token with the first token as outer context *)
+Example ex_parse_ok : parseTLFile (opt false false) sample = PR_ok.
+Proof. vm_compute. reflexivity. Qed.
+
+Example ex_parse_err :
+  match parseTLFile (opt false false) (firstn 20 sample) with
+  | PR_err false e => Some (e_kind e, t_type (e_tok e), p_off (e_begin e), p_off (e_end e), p_off (e_outer e))
+  | _ => None
+  end = Some (E1_semicolon, T_eof, 20, 20, 0).
+Proof. vm_compute. reflexivity. Qed.
+
+(* deep nesting within the fuel budget: "a x:" ++ "(" * 50 ++ "b" ++ ")" * 50 ++ " = A;" *)
+Example ex_parse_nested :
+  parseTLFile (opt false false) ([97; 32; 120; 58] ++ repeat 40 50 ++ [98] ++ repeat 41 50 ++ [32; 61; 32; 65; 59]) = PR_ok.
+Proof. vm_compute. reflexivity. Qed.
